@@ -327,6 +327,14 @@ func (x *Exec) applyContract(st *State, fi int, ct *Contract, callee *ssa.Functi
 			names = append(names, p.Name())
 		}
 	}
+	// a method contract header lists the parameters without the receiver
+	if len(names) > 0 && len(names) == len(args)-1 {
+		recvName := "self"
+		if callee != nil && len(callee.Params) == len(args) {
+			recvName = callee.Params[0].Name()
+		}
+		names = append([]string{recvName}, names...)
+	}
 	for i, a := range args {
 		if i < len(names) {
 			if a.T.S == "" && (a.Fn != nil || a.Loc != nil) {
